@@ -1363,6 +1363,20 @@ free_chld(ev_child *c)
 	return;
 }
 
+static void
+orphan_chlds(const void *t)
+{
+/* running children of T carry on but must not refer to T anymore */
+	for (size_t i = 0U; i < ncpools; i++) {
+		for (size_t j = 0U; j < cpools[i].size; j++) {
+			if (cpools[i]._1st[j].data == t) {
+				cpools[i]._1st[j].data = NULL;
+			}
+		}
+	}
+	return;
+}
+
 
 /* checkpoint handling */
 typedef struct ndnd_s ndnd_t;
@@ -2201,9 +2215,11 @@ chld_cb(EV_P_ ev_child *c, int UNUSED(revents))
 	ECHS_NOTI_LOG("chld %d coughed: %d", c->rpid, c->rstatus);
 	ev_child_stop(EV_A_ c);
 	c->rpid = c->pid = 0;
-	t->nsim--;
 
-	if (UNLIKELY(t->w.reschedule_cb == NULL && !t->nsim)) {
+	if (UNLIKELY(t == NULL)) {
+		/* task has been cancelled in the meantime */
+		;
+	} else if (UNLIKELY(!--t->nsim && t->w.reschedule_cb == NULL)) {
 		/* we promised taskB_cb to kill this guy,
 		 * the last child to finish does that */
 		unsched(EV_A_ &t->w, 0);
@@ -2603,6 +2619,9 @@ task update from user %d for task from user %d failed: permission denied",
 	/* otherwise proceed with the evacuation */
 	ECHS_NOTI_LOG("cancelling task 0x%x", oid);
 	ev_periodic_stop(EV_A_ &res->w);
+	if (res->nsim) {
+		orphan_chlds(res);
+	}
 	free_task(res);
 	return 0;
 }
